@@ -41,7 +41,7 @@ Print Assumptions C03_rle_header_size.
 (* varintDictEncodedSize is exact for every array the encoder accepts, and the
    value varintDictEncode returns equals it *)
 Theorem C03_dict_size_exact : forall xs d,
-  dict_build xs = BuildOk d -> Forall (fun x => x < 18446744073709551616) xs ->
+  dict_build xs = DictBuildOk d -> Forall (fun x => x < 18446744073709551616) xs ->
   8 * N.of_nat (length xs) < 18446744073709551616 ->
   dict_encoded_size xs = N.of_nat (length (fst (dict_encode xs))) /\
   dict_ret (dict_encode xs) = dict_encoded_size xs.
@@ -61,7 +61,7 @@ Print Assumptions C03_dict_with_size_exact.
    from the dictionary, where the encoder returns 0 after a partial write)
    neither the bytes touched nor the returned length exceed the predictor *)
 Theorem C03_dict_with_bound : forall d xs,
-  N.of_nat (length xs) * 8 < 18446744073709551616 -> (d_index_width d <= 8)%nat ->
+  N.of_nat (length xs) * 8 < 18446744073709551616 -> (dct_index_width d <= 8)%nat ->
   N.of_nat (length (fst (dict_encode_with_dict d xs))) <= dict_encoded_size_with_dict d (N.of_nat (length xs)) /\
   dict_ret (dict_encode_with_dict d xs) <= dict_encoded_size_with_dict d (N.of_nat (length xs)).
 Proof. exact dict_with_bound. Qed.
